@@ -742,6 +742,18 @@ fn run_inverse_laws(ctx: &Ctx) {
         let want = if b < 128 { b as u32 } else { cmapenc::MAC_ROMAN_HIGH[b as usize - 128] };
         // the decoder may be partial (PDF MacRomanEncoding omits 15 maths symbols); where it is defined it must
         // agree with Apple's table (0xDB: CURRENCY SIGN before Mac OS 8.5, EURO SIGN after) and be invertible
+        // the only bytes the decoder may leave undefined are the 15 characters PDF MacRomanEncoding lacks (maths symbols, the
+        // Apple logo); every other byte must decode (a decoder that loses, say, 0x8A would otherwise excuse itself below)
+        const MAC_OPTIONAL_BYTES: [u8; 15] = [0xAD, 0xB0, 0xB2, 0xB3, 0xB6, 0xB7, 0xB8, 0xB9, 0xBA, 0xBD, 0xC3, 0xC5, 0xC6, 0xD7, 0xF0];
+        if ch.is_none() && !MAC_OPTIONAL_BYTES.contains(&b) {
+            ctx.violation("C06:macroman:byte-not-decoded", || json!({"byte": b, "expected": want}));
+        }
+        if ch.is_none() {
+            // ... and then the character must not be encodable either (the two directions describe the same set)
+            if let Some(back) = char::from_u32(want).and_then(char_to_macroman) {
+                ctx.violation("C06:macroman:inverse-law", || json!({"char": want, "byte": back, "back": Value::Null}));
+            }
+        }
         if let Some(c) = ch {
             if c as u32 != want && !(b == 0xDB && c as u32 == 0xA4) {
                 ctx.violation("C06:macroman:table-differs-from-apple-roman", || json!({"byte": b, "expected": want, "got": c as u32}));
